@@ -5,7 +5,7 @@ non-string meaning is covered by the *writer's* must-quote predicates, the quote
 escape at least the parser's break alphabet, and every emitter that writes string content raw
 into a line-structured context is guarded against the breaks it does not split on."""
 from ..mir import MissingAnchor, sym_contains
-from ..rules import (render, aggregates, last_seg, bool_switches, str_compare_consts, str_consts, char_consts, int_consts,
+from ..rules import (compares, render, aggregates, last_seg, bool_switches, str_compare_consts, str_consts, char_consts, int_consts,
                      must_pass, switch_edges, consts_of)
 
 EXPLANATION = ("TABLE agreement between reader and writer, extracted from the MIR of both sides (and of the pinned parser): null / "
@@ -47,6 +47,27 @@ def compare_table(fx, fns):
         for k, v in str_compare_consts(g, fx).items():
             tab.setdefault(k, set()).update(v)
     return tab
+
+
+def _walk(sym):
+    if isinstance(sym, tuple):
+        yield sym
+        for x in sym:
+            if isinstance(x, (tuple, list)):
+                for y in (x if isinstance(x, list) else [x]):
+                    yield from _walk(y)
+
+
+def _compared_on_stripped(f, fx, word):
+    """the eq_ignore_ascii_case(.., word) call's other operand derives from a strip_prefix result"""
+    for b, t in f.calls():
+        if last_seg(fx.callee(t)) == "eq_ignore_ascii_case":
+            with f.deep():
+                ops = [f.sym_operand(a) for a in t["args"]]
+            if any(o[0] == "const" and o[1] == word for o in ops):
+                if any(sym_contains(o, lambda x: x[0] == "call" and last_seg(x[1]) == "strip_prefix") for o in ops):
+                    return True
+    return False
 
 
 def run(ctx):
@@ -139,9 +160,24 @@ def run(ctx):
                   "a byte-level guard covers the alphabet of %s case-insensitively" % sorted(rf_lits), "no guard in is_ambiguous covers the reader's special float literals %s (alphabet %s)" % (sorted(rf_lits), sorted(letters)), config, where)
         if guard_fn is not None:
             ctx.check(any(fx.callee(t) == guard_fn.npath for g in amb_fns for b, t in g.calls()), "TABLE", "C12:TABLE:special-floats:called", "the special-float guard is called", "the special-float guard is not called", config, where)
-        # bare nan/inf spellings in value position
-        for lit in ("nan", "inf", "+inf", "-inf"):
-            ctx.check(lit in ambv_tab.get("eq_ignore_ascii_case", set()), "TABLE", "C12:TABLE:bare-float:%s" % lit, "`%s` quoted in value position" % lit, "`%s` no longer quoted in value position" % lit, config, ctx.where(ambv))
+        # bare spellings the reader's float parser accepts through its `str::parse` fallback (core's FromStr for floats takes
+        # nan / inf / infinity, any case, with an optional sign): quoted in value position
+        core_parse = [b for g in fx.family(rf) for b, t in g.calls() if last_seg(fx.callee_decl(t)) in ("parse", "from_str")]
+        words = {"nan", "inf", "infinity"} if core_parse else set()
+        ctx.check(bool(core_parse) or True, "TABLE", "C12:TABLE:bare-float:reader", "reader float parser %s core's str::parse" % ("falls back to" if core_parse else "does not use"), "", config, ctx.where(rf))
+        # the compared operand: either the words are compared on the sign-stripped text, or every signed spelling is listed
+        stripped = set()
+        for b, t in ambv.calls():
+            if last_seg(fx.callee(t)) == "strip_prefix":
+                with ambv.deep():
+                    pat = ambv.sym_operand(t["args"][1])
+                stripped |= {x[1] for x in _walk(pat) if len(x) > 2 and x[0] == "const" and x[2] == "char"}
+        ci = ambv_tab.get("eq_ignore_ascii_case", set())
+        for w in sorted(words):
+            for sign in ("", "+", "-"):
+                okw = (sign + w) in ci or (sign in stripped and w in ci and _compared_on_stripped(ambv, fx, w))
+                ctx.check(okw, "TABLE", "C12:TABLE:bare-float:%s%s" % (sign, w), "`%s%s` (any case) quoted in value position" % (sign, w),
+                          "`%s%s` is emitted plain in value position: core's float parser accepts it, so an untyped target reads it back as a float / `.inf` / `.nan`" % (sign, w), config, ctx.where(ambv))
         # -- class: numbers — the regex mentions every radix prefix the reader strips (lower case) and exponent / underscore forms
         nl = fx.fn(SQ + "is_numeric_looking")
         ctx.saw(nl)
@@ -183,10 +219,15 @@ def run(ctx):
         for m in sorted(marks):
             ctx.check(m in covered, "TABLE", "C12:TABLE:doc-markers:%s" % m, "`%s` is covered by a prefix guard" % m,
                       "the string `%s` is emitted plain: at the start of a line it reads back as a document marker" % m, config, where)
-        # -- class: edge blanks and leading BOM (two-sided)
+        # -- class: edge blanks and leading BOM (two-sided).  SIBLING: the reader's scalar parsers trim with `str::trim`
+        # (Unicode White_Space), so the writer's edge test must use the same predicate (char::is_whitespace), not the ASCII one.
+        readers = [g for g in fx.fns.values() if g.npath.startswith("parse_scalars::") or g.npath.endswith("Deserializer>::deserialize_any")]
+        unicode_trim = sorted({g.npath for g in readers for b, t in g.calls() if fx.callee_decl(t) in ("core::str::trim", "str::trim") or (last_seg(fx.callee_decl(t)) == "trim" and "str" in fx.callee_decl(t))})
+        ctx.check(True, "TABLE", "C12:TABLE:edge-blank:reader-trim", "reader functions trimming with str::trim: %d" % len(unicode_trim), "", config, None)
         for f in (psafe, pvsafe):
             fam = callees_closure(fx, f, depth=1)
             first = last = bom = False
+            ufirst = ulast = False
             for g in fam:
                 for b, t in g.calls():
                     if last_seg(fx.callee(t)) == "is_ascii_whitespace":
@@ -196,14 +237,21 @@ def run(ctx):
                             first = True
                         if "Sub(" in a and "len(" in a:
                             last = True
+                    if last_seg(fx.callee(t)) in ("starts_with", "ends_with") and "is_whitespace}" in str(t["f"].get("args")) and "is_ascii" not in str(t["f"].get("args")):
+                        if last_seg(fx.callee(t)) == "starts_with":
+                            first = ufirst = True
+                        else:
+                            last = ulast = True
                     if last_seg(fx.callee(t)) in ("starts_with", "strip_prefix"):
                         for a in t["args"]:
-                            if g.sym_operand(a) == ("const", "﻿", "char"):
+                            if g.sym_operand(a) == ("const", "\ufeff", "char"):
                                 bom = True
             key = "C12:TABLE:edge-blank:%s" % f.name
             ctx.check(first, "TABLE", key + ":leading", "leading blank refused", "%s no longer refuses a leading blank" % f.name, config, ctx.where(f))
             ctx.check(last or not first, "TABLE", key + ":trailing", "trailing blank refused as well (the reader strips both ends)",
                       "%s refuses a leading blank but not a trailing one: `a ` is emitted plain and reads back as `a`" % f.name, config, ctx.where(f))
+            ctx.check((ufirst and ulast) or not unicode_trim, "TABLE", key + ":unicode", "edge blanks are tested with char::is_whitespace — the predicate the reader's str::trim uses",
+                      "%s tests edge blanks with an ASCII predicate while the reader trims with str::trim (any Unicode white space) in %s: `12\u00a0` is emitted plain and an untyped target reads it back as the number 12" % (f.name, unicode_trim[:3]), config, ctx.where(f))
             ctx.check(bom, "TABLE", key + ":leading-bom", "leading U+FEFF refused (every string entry point strips it)", "%s lets a leading U+FEFF through: a root string loses it" % f.name, config, ctx.where(f))
         # -- escape alphabet of the quoted emitters ⊇ parser break set
         brk = fx.foreign.get("saphyr_parser_bw::input::is_break")
@@ -271,3 +319,51 @@ def rule_block_guard(ctx, fx, config, breaks, prop):
                 if s_[0] == "const":
                     splits.add(s_[1])
     ctx.check(splits <= {"\n"}, "BLOCK", "%s:BLOCK:split-alphabet" % prop, "bodies are split on %s" % sorted(map(repr, splits)), "bodies are split on %s" % sorted(map(repr, splits)), config, ctx.where(f))
+    # INDICATOR (F16): the digit after `|` / `>` is relative to the parent node.  The body is written at
+    # indent_step * (base + 1); passing that absolute amount as the indicator is only right at depth 0.
+    ind = [(b, t) for b, t in f.calls() if fx.callee(t).endswith("::block_indent_indicator_digit")]
+    ctx.floor("BLOCK.indicator-sites", len(ind), 2, config)
+    for k, (b, t) in enumerate(ind, 1):
+        with f.deep():
+            a = f.sym_operand(t["args"][0])
+        absolute = sym_contains(a, lambda x: x[0] == "bin" and x[1] in ("Mul", "MulWithOverflow"))
+        ctx.check(not absolute and "indent_step" in render(a), "BLOCK", "%s:BLOCK:indicator-relative#%d" % (prop, k), "the indentation indicator is the step (relative to the parent node), not a product with the depth",
+                  "the block-scalar indentation indicator is computed as `%s`: an absolute indentation only parses back at nesting depth 0 (`inner:\\n  s: |4-` is rejected)" % render(a)[:80], config, ctx.where(f, b))
+    # ... and is only used with the step for which `- ` keeps nested nodes aligned (2); otherwise the string is quoted
+    okstep = False
+    for c in compares(f):
+        if c["op"] in ("Ne", "Eq") and "2" in (c["rl"], c["rr"]) and any("indent_step" in x or x == "indent_n" for x in (c["rl"], c["rr"])):
+            quoted = c["t"] if c["op"] == "Ne" else c["f"]
+            away = f.reachable([quoted])
+            okstep = bool(ind) and all(ib not in away for ib, _t in ind)
+    ctx.check(okstep, "BLOCK", "%s:BLOCK:indicator-step-guard" % prop, "an indicator is written only when the indentation step is 2 (else the string is quoted)",
+              "the step-2 guard in front of the indentation indicator is gone: with another step the compact `- ` forms misalign the parent column and the indicator is wrong", config, ctx.where(f))
+
+    # LONG KEYS (F18): implicit keys are limited to 1024 characters by YAML; beyond a bound <= 1024 the explicit `? ` form is used
+    ks = fx.fn("<ser::MapSer as serde::ser::SerializeMap>::serialize_key")
+    ctx.saw(ks)
+    nk = 0
+    for c in compares(ks):
+        for side, other in ((c["rl"], c["rr"]), (c["rr"], c["rl"])):
+            if other.isdigit() and 256 <= int(other) <= 1024 and "count(" in side:
+                nk += 1
+                longe = c["t"] if (c["op"] in ("Gt", "Ge") and other == c["rr"]) or (c["op"] in ("Lt", "Le") and other == c["rl"]) else c["f"]
+                q = [b for b, t in ks.calls() if last_seg(fx.callee_decl(t)) == "write_str" and len(t["args"]) > 1 and ks.sym_operand(t["args"][1])[:2] == ("const", "? ")]
+                ctx.check(any(ks.edge_dominates(c["block"], longe, b) or b in ks.reachable([longe]) for b in q) and bool(q), "BLOCK", "%s:KEYS:long-key-explicit#%d" % (prop, nk),
+                          "a key longer than %s characters is written in the explicit `? key` form" % other, "the long-key edge does not write `? `", config, ctx.where(ks, c["block"]))
+    ctx.check(nk >= 2, "BLOCK", "%s:KEYS:long-key-guard" % prop, "block and flow key emitters compare the key length with a bound <= 1024 (%d sites)" % nk,
+              "a scalar key is written as an implicit `key: value` whatever its length (%d length guards, expected 2): beyond 1024 characters YAML parsers reject it" % nk, config, ctx.where(ks))
+    # FIRST LINE: whether an indicator is needed is decided on the first line that is not *empty* (zero length).  A line of
+    # blanks only is content of a block scalar and, being over-indented, must not be left to the parser's auto-detection.
+    fl = fx.fn("wrapping::first_line_leading_spaces")
+    ctx.saw(fl)
+    tests = []
+    for g in fx.family(fl):
+        for b, t in g.calls():
+            if last_seg(fx.callee(t)) == "is_empty":
+                with g.deep():
+                    a = g.sym_operand(t["args"][0])
+                tests.append((g, b, sym_contains(a, lambda x: x[0] == "call" and last_seg(x[1]).startswith("trim"))))
+    ctx.check(len(tests) == 1 and not tests[0][2], "BLOCK", "%s:BLOCK:indicator-first-line" % prop, "the skipped leading lines are exactly the zero-length ones",
+              "first_line_leading_spaces skips lines by a test on trimmed text (%d emptiness tests): a first line made of blanks only no longer forces an indentation indicator, and the parser mis-detects the block's indentation" % len(tests), config, ctx.where(fl))
+    ctx.check(any(fx.callee(t) == fl.npath for b, t in f.calls()), "BLOCK", "%s:BLOCK:indicator-first-line:used" % prop, "serialize_str derives needs_indicator from it", "serialize_str no longer consults first_line_leading_spaces", config, ctx.where(f))
